@@ -1,6 +1,6 @@
 """C02 The JSON parser accepts exactly RFC 8259 - (state x character) cell tables vs the grammar."""
 import json, os
-from .. import frontend as F, ast as A, util as U, peval as P, cfg as C
+from .. import frontend as F, ast as A, util as U, peval as P, cfg as C, guards as G
 
 EXPLANATION = ('The hand-written JSON automaton is partially evaluated cell by cell: for every parse_state handled in parse_some_ and every '
                'character value 0..255 the selected region is summarised (consume / transition / sub-parser entered / error) and compared '
@@ -539,6 +539,39 @@ def r02_8(chk, facts):
                          'the input again (a byte order mark is looked for in the middle of the text)' % (fn['n'], fname, fname), None, fn['q'])
     chk.require(n >= 2, 'R02.8: only %d first-chunk tests found in the source adaptors' % n)
 
+def r02_9(chk, facts, rid='R02.9'):
+    """Code points above the Basic Multilingual Plane are code points."""
+    chk.rule(rid, 'whole code points: where a conversion in unicode_traits stores a decoded code point as one unit (UTF-32 target: '
+                  '`target.push_back(ch)` with no narrowing) under an upper bound on it, the tightest bound is 0x10FFFF (max_legal_utf32); a '
+                  'smaller bound such as the end of the BMP turns every supplementary-plane character into an error or a replacement', floor=2)
+    n = 0; seen = set()
+    for fn in sorted(facts.functions, key=lambda f: bool(f.get('dep'))):
+        if not fn['file'].endswith('unicode_traits.hpp') or fn.get('body') is None: continue
+        g = None
+        for c in A.calls_in(fn['body'], no_lambda=True):
+            if A.callee_name(c) != 'push_back' or not c.get('args'): continue
+            a = A.strip(c['args'][0])
+            if a is None or a.get('k') != 'DeclRefExpr' or (fn['file'], c.get('l')) in seen: continue
+            tn = fn['_types'][a['t'] - 1] if a.get('t') else ''
+            if 'int' not in tn or '32' not in tn and 'unsigned int' not in tn: continue
+            seen.add((fn['file'], c.get('l')))
+            g = g or C.CFG(fn['body'])
+            nd = g.node_of(c)
+            ub = []
+            for ga, lab, e in (g.guards(nd) if nd is not None else []):
+                cm = G.comparison(ga)
+                if cm and A.strip(cm[1], casts=True) is not None and A.strip(cm[1], casts=True).get('id') == a.get('id') and A.const(cm[2]) is not None:
+                    op = cm[0] if lab else G.NEG[cm[0]]
+                    if op == '<=': ub.append(A.const(cm[2]))
+                    if op == '<': ub.append(A.const(cm[2]) - 1)
+            if not ub: continue          # a 16-bit source cannot exceed the range
+            n += 1
+            chk.analysed(fn)
+            site = U.site(fn, 'code point stored at line %s' % c.get('l'))
+            if min(ub) == 0x10FFFF: chk.ok(rid, site, {'bound': hex(min(ub))})
+            else: chk.fail(rid, site, fn['file'], c.get('l'), '%s stores the code point only when it is <= %s: code points up to 0x10FFFF are legal' % (fn['n'], hex(min(ub))), None, fn['q'])
+    chk.require(n >= 2, '%s: only %d bounded code point stores found in unicode_traits.hpp' % (rid, n))
+
 def run(chk, tier, only_rule=None):
     chk.explanation = EXPLANATION
     chk.not_decided = NOT_DECIDED
@@ -551,6 +584,7 @@ def run(chk, tier, only_rule=None):
     r02_5(chk, facts)
     r02_7(chk, facts)
     r02_8(chk, facts)
+    r02_9(chk, facts)
     # a number or string token may straddle two chunks: the resume rule of C03 is a necessary condition of accepting the same texts
     from . import c03
     c03.r03_1_2(chk, facts)
